@@ -88,6 +88,9 @@ class Summaries:
         E["<core::iter::Enumerate<I> as core::iter::Iterator>::nth"] = self.enumerate_assume
         E["core::iter::Iterator::zip"] = self.zip_new
         E["<core::iter::Zip<A, B> as core::iter::Iterator>::next"] = self.iter_next
+        # from the back: same abstract effect (one pair less, or None); the zipped slices have equal remaining counts only
+        # as far as `min` says, which is all the abstraction keeps
+        E["<core::iter::Zip<A, B> as core::iter::DoubleEndedIterator>::next_back"] = self.iter_next
         E["core::iter::Iterator::any"] = self.iter_any
         E["core::iter::Iterator::position"] = self.iter_position
         E["core::iter::Iterator::rposition"] = self.iter_position
